@@ -19,14 +19,18 @@ CLAIMED = {
    text="Machine-checked theorems (Lean 4): the model of lexer.rs/parser.rs accepts a token string iff it is the yield of a `Legal` concrete "
         "syntax tree (T1 soundness: by induction on the parser's fuel over all 15 mutually recursive parser functions; T2 completeness: "
         "every Legal tree of any size parses to itself; fuel sufficiency and monotonicity so the model's fuel is never the reason for a "
-        "rejection), lifted to strings through the lexer (C03_language), plus the documented lexical rule for numbers. `Legal` is the ABNF "
-        "at token level with binding powers; the three places where the code (like jmespath.py) accepts more (F3, F4, F5) are classified "
-        "by executable deviation counters and listed as known findings. The model is tied to the code on every run by the `parse` "
-        "correspondence stream (structured sentences, near-misses, token soup, character soup; thorough: all token strings of length <= 3).",
+        "rejection), lifted to strings through the lexer (C03_language), plus the documented lexical rule for numbers. The published ABNF is "
+        "transcribed production by production as an ambiguous context-free grammar over tokens (Spec/Abnf.lean) and C03_abnf_language "
+        "proves, for all strings: compile succeeds without one of the three deviations F3/F4/F5 iff the string lexes to a sentence of that "
+        "grammar (soundness by induction over trees, completeness by an attach-along-the-right-spine construction over arbitrary ambiguous "
+        "derivations). The deviations (shared with jmespath.py) are counted by executable counters and listed as known findings. The model "
+        "is tied to the code on every run by the `parse` correspondence stream (structured sentences, near-misses, token soup, character "
+        "soup; thorough: all token strings of length <= 3), and generated token strings are additionally judged by an independent chart "
+        "recogniser of the ABNF written in Python (tools/abnf.py).",
    note="Trusted: Lean kernel (+propext, Classical.choice, Quot.sound); the hand-written lexer/parser/JSON-text models correspond to the "
-        "code as far as the sampled `parse` stream shows; `Legal` as the reading of the published ABNF; serde_json's JSON grammar is modelled, not verified.",
+        "code as far as the sampled `parse` stream shows; Spec/Abnf.lean as the transcription of the published ABNF (token level: lexical productions are the lexer's); serde_json's JSON grammar is modelled, not verified.",
    design="DESIGN.md §7 C03, Appendix A",
-   technique="Lean 4 theorems (parser soundness/completeness w.r.t. a token-level grammar) + model/implementation correspondence check"),
+   technique="Lean 4 theorems (parser model = published ABNF modulo three counted deviations) + model/implementation correspondence check + independent ABNF recogniser"),
  "C10": dict(
    text="Machine-checked theorems (Lean 4) on the model of float_eq / PartialEq / Ord / Variable::compare: == is symmetric and (on "
         "well-formed values) reflexive for all values incl. nested containers, != is its negation, values of different types are never "
